@@ -259,3 +259,26 @@ def main : IO Unit := do
   cmp1 "rawPropertyParse" ([] :: heads)
     (fun bs => outcomeText (Generated.rawPropertyParse bs))
     (fun bs => outcomeText ((RawProp.decode bs).map' (fun x => (toSrcRawD x.1, x.2))))
+  -- the value of one property of an entry: integers of every width at several offsets of short and long entries
+  let ent : Bytes := (List.range 24).map (fun i => UInt8.ofNat (i * 37 + 129))
+  let ents : List Bytes := [ent, ent.take 9, ent.take 3, []]
+  let ioffs : List (Bytes × Nat × Nat) := ents.flatMap fun e => [0, 1, 5, 8, 20].flatMap fun o => [1, 2, 3, 4, 5, 8].map fun w => (e, o, w)
+  let noStore : Nat → Outcome (ValueStoreTail × Bytes) := fun _ => .err .format
+  let noData : Nat → Nat → Option Nat → Outcome Bytes := fun _ _ _ => .err .format
+  cmp1 "intPropertyCreate" ioffs
+    (fun x => outcomeText ((Generated.intPropertyCreate x.1 x.2.1 x.2.2 none none noData).map' Val.u))
+    (fun x => outcomeText (decodeProp noStore x.1 ⟨x.2.1, [], .uint x.2.2 none⟩))
+  cmp1 "signedPropertyCreate" ioffs
+    (fun x => outcomeText ((Generated.signedPropertyCreate x.1 x.2.1 x.2.2 none none noData).map' Val.s))
+    (fun x => outcomeText (decodeProp noStore x.1 ⟨x.2.1, [], .sint x.2.2 none⟩))
+  let coffs : List (Bytes × Nat × Nat × Nat × Option Nat) := ents.flatMap fun e => [0, 2, 7, 21].flatMap fun o => [1, 2].flatMap fun ps =>
+    [1, 2, 3, 4].flatMap fun cs => [none, some 5].map fun d => (e, o, ps, cs, d)
+  cmp1 "contentPropertyCreate" coffs
+    (fun x => outcomeText ((Generated.contentPropertyCreate (x.1.drop x.2.1) x.2.2.2.2 x.2.2.1 x.2.2.2.1).map' (fun y => Val.content y.1.1 y.1.2)))
+    (fun x => outcomeText (decodeProp noStore x.1 ⟨x.2.1, [], .content x.2.2.1 x.2.2.2.1 x.2.2.2.2⟩))
+  let aoffs : List (Bytes × Nat × Option Nat × Nat) := ents.flatMap fun e => [0, 2, 7].flatMap fun o => [none, some 1, some 2].flatMap fun l =>
+    [0, 1, 4, 31].map fun f => (e, o, l, f)
+  cmp1 "arrayPropertyCreate" (aoffs.filter (fun x => x.2.1 ≤ x.1.length))
+    (fun x => outcomeText ((Generated.arrayPropertyCreate (x.1.drop x.2.1) x.2.2.1 x.2.2.2 none none).bind fun r =>
+      (resolveArray noStore r.1 r.2.1 x.2.2.2 r.2.2).map' Val.arr))
+    (fun x => outcomeText (decodeProp noStore x.1 ⟨x.2.1, [], .array x.2.2.1 x.2.2.2 none none⟩))
